@@ -232,6 +232,7 @@ def _c05(name):
 RULES += [
     ("C06.INT.CTOR", "BigNum::new keeps every bit and the sign (zero non-negative): Num::from_num/new build on it", _c05("C05.CTOR")),
     ("C06.INT.CONSTS", "the constants 0, 1, NaN and the predicates is_zero / is_pos (shared with C05.CONSTS)", _c05("C05.CONSTS")),
+    ("C06.INT.NORMALISE", "shrink_to_fit removes exactly the superfluous zero limbs (shared with C05.NORMALISE)", _c05("C05.NORMALISE")),
     ("C06.INT.SIGN", "BigNum sign dispatch of add/sub/mul/div/partial_cmp/eq/neg/minus", _c05("C05.SIGN")),
     ("C06.INT.OPS", "BigNum operator impls, rem = a-(a/b)*b, Euclid step of gcd (used by Num::optimize)", _c05("C05.OPS")),
     ("C06.INT.DIVLESS", "BigNum quotient search and magnitude comparison", _c05("C05.DIVLESS")),
